@@ -218,6 +218,117 @@ Fixpoint enc_body (pool : list str) (prev : option meta) (t : list cell) : bytes
 Definition ser (t : triangle) : bytes :=
   let pool := pool_of t in MAGIC ++ [VERSION] ++ enc_pool pool ++ enc_body pool None t.
 
+(* ------------------------------------------------------------------ the writer, parametrised by
+   the metadata test.  _write_triangle skips the metadata record when
+   `prev_metadata != cell.metadata` is False, where prev_metadata is the PREVIOUS CELL's metadata
+   and `!=` is Python's (dataclass) equality.  [ser] above instantiates the test with structural
+   equality; [ser_py] below with a wire-level model of Python's ==. *)
+Definition same_meta (meq : meta -> meta -> bool) (prev : option meta) (m : meta) : bool :=
+  match prev with Some p => meq p m | None => false end.
+Fixpoint enc_body_with (meq : meta -> meta -> bool) (pool : list str) (prev : option meta)
+         (t : list cell) : bytes :=
+  match t with
+  | [] => []
+  | c :: cs =>
+    (if same_meta meq prev (c_meta c) then [] else R_METADATA :: enc_meta pool (c_meta c))
+    ++ (cell_tag (c_kind c) :: enc_cell pool c) ++ enc_body_with meq pool (Some (c_meta c)) cs
+  end.
+Definition ser_with (meq : meta -> meta -> bool) (t : triangle) : bytes :=
+  let pool := pool_of t in MAGIC ++ [VERSION] ++ enc_pool pool ++ enc_body_with meq pool None t.
+
+(* what a reader gets back: a cell whose metadata record was skipped carries the metadata of the
+   last record written (the first representation of its run of ==-equal metadata).
+   prev = writer state (previous cell's metadata), cur = reader state (last record read) *)
+Definition set_meta (c : cell) (m : meta) : cell :=
+  mkCell (c_kind c) (c_pstart c) (c_pend c) (c_eval c) (c_values c) (c_prev c) m.
+Definition cur_meta (cur : option meta) : meta :=
+  match cur with Some m => m | None => mkMeta (Some [65; 99; 99; 105; 100; 101; 110; 116]) None None None None None [] [] end.
+Fixpoint rep_with (meq : meta -> meta -> bool) (prev cur : option meta) (t : list cell) : list cell :=
+  match t with
+  | [] => []
+  | c :: cs =>
+    if same_meta meq prev (c_meta c)
+    then set_meta c (cur_meta cur) :: rep_with meq (Some (c_meta c)) cur cs
+    else c :: rep_with meq (Some (c_meta c)) (Some (c_meta c)) cs
+  end.
+
+(* ---- Python's == on metadata, wire level.  Numbers compare by value across bool/int/float
+   (True == 1 == 1.0, 0.0 == -0.0, nan != nan); str, date, None only equal their own kind;
+   dicts are compared as sets of items. *)
+Inductive nkey := NFin (m e : Z) | NInf (neg : bool) | NNaN.        (* m * 2^e, m odd (or 0,0) *)
+Fixpoint norm2 (fuel : nat) (m e : Z) : Z * Z :=
+  match fuel with
+  | O => (m, e)
+  | S f => if m =? 0 then (0, 0) else if Z.even m then norm2 f (m / 2) (e + 1) else (m, e)
+  end.
+Definition nkey_fin (m e : Z) : nkey := let (m', e') := norm2 64 m e in NFin m' e'.
+Definition nkey_of_f64 (f : bytes) : nkey :=
+  let bits := le_dec f in
+  let neg := 9223372036854775808 <=? bits in
+  let ex := (bits / 4503599627370496) mod 2048 in
+  let mant := bits mod 4503599627370496 in
+  let sgn := if neg then -1 else 1 in
+  if ex =? 2047 then (if mant =? 0 then NInf neg else NNaN)
+  else if ex =? 0 then nkey_fin (sgn * mant) (-1074)
+  else nkey_fin (sgn * (4503599627370496 + mant)) (ex - 1075).
+Definition nkey_eqb (a b : nkey) : bool :=
+  match a, b with
+  | NFin m e, NFin m' e' => (m =? m') && (e =? e')
+  | NInf x, NInf y => Bool.eqb x y
+  | _, _ => false
+  end.
+Definition nkey_of_gval (v : gval) : option nkey :=
+  match v with
+  | GBool b => Some (nkey_fin (if b then 1 else 0) 0)
+  | GInt z => Some (nkey_fin z 0)
+  | GFloat f => Some (nkey_of_f64 f)
+  | _ => None
+  end.
+Definition gval_pyeqb (a b : gval) : bool :=
+  match nkey_of_gval a, nkey_of_gval b with
+  | Some x, Some y => nkey_eqb x y
+  | None, None =>
+    match a, b with
+    | GStr x, GStr y => zlist_eqb x y
+    | GDate x, GDate y => date_eqb x y
+    | GNone, GNone => true
+    | _, _ => false                                       (* arrays: not comparable with == *)
+    end
+  | _, _ => false
+  end.
+Fixpoint dict_get (k : str) (d : dict) : option gval :=
+  match d with [] => None | (k', v) :: r => if str_eqb k' k then Some v else dict_get k r end.
+Definition dict_pyeqb (a b : dict) : bool :=
+  (Z.of_nat (length a) =? Z.of_nat (length b))
+  && forallb (fun kv => match dict_get (fst kv) b with
+                        | Some w => gval_pyeqb (snd kv) w
+                        | None => false
+                        end) a.
+Definition limit_pyeqb (a b : option bytes) : bool :=
+  match a, b with
+  | None, None => true
+  | Some f, Some g => nkey_eqb (nkey_of_f64 f) (nkey_of_f64 g)
+  | _, _ => false
+  end.
+Definition meta_pyeqb (a b : meta) : bool :=
+  ostr_eqb (m_risk_basis a) (m_risk_basis b) && ostr_eqb (m_country a) (m_country b)
+  && ostr_eqb (m_currency a) (m_currency b)
+  && ostr_eqb (m_reinsurance_basis a) (m_reinsurance_basis b)
+  && ostr_eqb (m_loss_definition a) (m_loss_definition b)
+  && limit_pyeqb (m_limit a) (m_limit b)
+  && dict_pyeqb (m_details a) (m_details b) && dict_pyeqb (m_loss_details a) (m_loss_details b).
+
+(* the faithful writer and what comes back from it *)
+Definition ser_py : triangle -> bytes := ser_with meta_pyeqb.
+Definition rep_py (t : triangle) : list cell := rep_with meta_pyeqb None None t.
+(* triangles on which Python's == and structural equality agree along the stored order: nothing
+   is collapsed by the writer *)
+Definition coherentb (t : triangle) : bool := cells_eqb (rep_py t) t.
+(* every metadata is == to itself (fails only for NaN detail floats, where Python relies on object
+   identity) *)
+Definition pyeq_reflb (t : triangle) : bool :=
+  forallb (fun c => meta_pyeqb (c_meta c) (c_meta c)) t.
+
 (* ================================================================== reader (binary_input.py) *)
 Definition dec_u8 : parser Z := fixedp 1 (fun bs => ROk (le_dec bs)).
 Definition dec_u16 : parser Z := fixedp 2 (fun bs => ROk (le_dec bs)).
